@@ -21,6 +21,7 @@ def run(ctx):
     from rules import symprint
     symprint.L2_guards(ctx, "C05.L2", core, G, scope_fns=("ast_to_source",))
     symprint.shape_rules(ctx, "C05.L9", core, G, scope_fns=("ast_to_source",))
+    symprint.scope_threading(ctx, "C05.R10", core)
     # captured and literal numbers are emitted exactly (shared with C16.R1)
     from rules import c16
     ctx.rule("C05.L10", "numbers in emitted function source are printed exactly: f64 Display without precision, or precision 0 dominated by fract() == 0", floor=6)
